@@ -148,6 +148,12 @@ def run_property(pid, tier, seed, only=None):
             ob2 = copy.copy(ob); ob2.abstractions = tuple(a for a in ob.abstractions if '/uf' not in a)
             redo.append((i, (ob2, jobs[i][1], jobs[i][2], jobs[i][3], None, seed, jobs[i][6])))
     for i, rec in enumerate(recs):
+        if rec['verdict'] == 'counterexample' and jobs[i][0].custom is not None and 'model_args' in rec and not check_native(rec) and rec.get('scan_args'):
+            # piece-level counterexample that is not observable from the one clock value of its model: scan clock values natively
+            line = replay_native(sc, rec['scan_fn'], rec['scan_args'], rec['profile'].endswith('on'))
+            if violates(rec['kind'], line):
+                rec['replay_fn'] = rec['scan_fn']; rec['model_args'] = rec['scan_args']; rec['native_replay'] = line
+    for i, rec in enumerate(recs):
         if rec['verdict'] == 'counterexample' and jobs[i][0].custom is not None and 'model_args' in rec and not check_native(rec):
             import copy
             ob2 = copy.copy(jobs[i][0]); ob2.opts = dict(ob2.opts, realistic=True)
